@@ -15,6 +15,14 @@ from typing import Any
 from . import core, features
 from .core import Check, run_tlc, tla
 
+# layouts whose package / core names are PREFIX-RELATED (core named after the client's last segment; a last segment that is
+# a prefix of a stdlib module name): path arithmetic on dotted names must respect segment boundaries
+PREFIX_LAYOUTS = [
+    {"depth": 2, "core": "named_after_tail"},   # pkg p<j>.biz      core biz_core<j>
+    {"depth": 2, "core": "embedded_data_tail"},  # pkg p<j>.data     (tail is a prefix of `dataclasses`)
+    {"depth": 3, "core": "sibling_prefix"},      # pkg p<j>.api.svc  core p<j>.api.svc_core
+]
+
 LAYOUTS = [
     {"depth": 1, "core": "embedded"},
     {"depth": 2, "core": "embedded"},
@@ -33,6 +41,12 @@ def pkg_names(j: int, layout: dict) -> tuple[str, str | None]:
     d = layout["depth"]
     pkg = {1: top, 2: f"{top}.client", 3: f"{top}.api.client"}[d]
     c = layout["core"]
+    if c == "named_after_tail":
+        return f"{top}.biz", f"biz_core{j}"
+    if c == "embedded_data_tail":
+        return f"{top}.data", None
+    if c == "sibling_prefix":
+        return f"{top}.api.svc", f"{top}.api.svc_core"
     if c == "embedded":
         return pkg, None
     if c == "toplevel" or d == 1:
@@ -252,7 +266,9 @@ def build_events(chk: Check, recs: list[dict], predicted: dict[str, list[dict]],
         for s in o.get("facts", {}).get("imports", []):
             top = (s["abs"] or s["target"]).split(".")[0] if s["level"] == 0 else s["abs"].split(".")[0]
             resolves = True
-            if s["level"] > 0:
+            own_tops = {pkg.split(".")[0], (corep or pkg).split(".")[0]}
+            if s["level"] > 0 or top in own_tops:
+                # an import into the package's / core's own namespace must name a module that was emitted
                 resolves = s["abs"] in mods
             ev.append({"k": "importstmt", "m": s["m"], "top": top, "level": s["level"], "depth": s["depth"], "guarded": bool(s.get("guarded")), "resolves": resolves, "modkind": modkind(pkg, corep, s["m"])})
         for g in o.get("generator_imports", []):
